@@ -40,3 +40,5 @@ def run(ctx, rep):
     builtins.rule_subarray_shares_memory(ctx, rep, "C17-R21")
     builtins.rule_whole_elements_in_buffer(ctx, rep, "C17-R22")
     optargs.rule_argument_count_cases(ctx, rep, "C17-R23")
+    builtins.rule_live_container_iteration(ctx, rep, "C17-R24")
+    builtins.rule_sort_on_a_copy(ctx, rep, "C17-R25")
